@@ -258,8 +258,11 @@ def run(spec):
             vexp = feed(drv, atoms, calc, rng, scheme, 0.0, "committee")
             EXPECT[id(drv)] = {**base, "v": vexp, "how": "in-step"}
             try:
+                drv.delta = 0.5 * (lo + hi)  # whatever it was: the step itself has to adapt it to the committee at hand
                 drv.step()
                 rec.count("in_step_calls")
+                if lo < hi and not np.all(np.abs(np.asarray(drv.delta, dtype=float) - hi) <= ulp_tol(lo, hi)):
+                    rec.viol(f"C18/in-step/delta-not-adapted/{fn}", f"after a step with a zero-variance committee delta is {np.asarray(drv.delta).ravel()[:3]}, max_delta is {hi}: the step did not adapt its length", {**base, "how": "in-step"})
             except Exception as ex:  # noqa: BLE001
                 rec.viol(f"C18/step-raised/{type(ex).__name__}", f"AdaptiveForceBias.step raised {type(ex).__name__}: {ex}", base)
         EXPECT.pop(id(drv), None)
